@@ -232,12 +232,12 @@ impl TcpNameserver {
         }
     }
 
-    async fn send_tcp_query(&mut self, msg: TcpNameserverMessage) -> Result<(), Error> {
-        assert!(
-            self.qid2reply
-                .insert(msg.out_query.qid, msg.out_reply)
-                .is_none()
-        ); // TODO: Collisions!
+    async fn send_tcp_query(&mut self, mut msg: TcpNameserverMessage) -> Result<(), Error> {
+        /* Query ids only have to be unique among the queries outstanding on this connection. */
+        while self.qid2reply.contains_key(&msg.out_query.qid) {
+            msg.out_query.qid = msg.out_query.qid.wrapping_add(1);
+        }
+        self.qid2reply.insert(msg.out_query.qid, msg.out_reply);
         if let Some(ref mut tcp_sock) = self.tcp {
             use tokio::io::AsyncWriteExt as _;
             let bytes = msg.out_query.serialise();
